@@ -73,10 +73,20 @@ type c09fShape struct {
 	Thorough bool
 }
 
+func (w *c09fWorld) cid() netip.Addr {
+	if w.DefaultCID {
+		return c09fRouterID
+	}
+	return c09fClusterID
+}
+
 type c09fWorld struct {
 	Name   string
 	Confed bool
-	Peers  []c09fPeer // index 0 is the local source (API); 1.. are bots in this order
+	// DefaultCID: the route-reflector clients are configured WITHOUT a cluster-id; the effective cluster-id
+	// is then the router id (RFC 4456 7), for reflecting and for the input loop check alike
+	DefaultCID bool
+	Peers      []c09fPeer // index 0 is the local source (API); 1.. are bots in this order
 	Shapes []c09fShape
 }
 
@@ -108,6 +118,19 @@ var c09fWorlds = []c09fWorld{
 			{"own-as-in-set", nil, []uint32{65009}, []uint32{c09fLocalAS, 65008}, true},
 			{"has-e1-e2-as", nil, []uint32{65002, 65001}, nil, true},
 			{"no-suffix", nil, nil, nil, true},
+		},
+	},
+	{
+		Name: "default-cluster-id", DefaultCID: true,
+		Peers: []c09fPeer{
+			{"local", c09fKLocal, 0, 0},
+			{"e1", c09fKEBGP, 65001, 1},
+			{"i1", c09fKIBGP, c09fLocalAS, 3},
+			{"c1", c09fKClient, c09fLocalAS, 5},
+			{"c2", c09fKClient, c09fLocalAS, 6},
+		},
+		Shapes: []c09fShape{
+			{"plain", nil, []uint32{65009}, nil, false},
 		},
 	},
 	{
@@ -317,7 +340,9 @@ func c09fSpecs(wd *c09fWorld, allow int) []simBotSpec {
 				switch p.Kind {
 				case c09fKClient:
 					n.RouteReflector.Config.RouteReflectorClient = true
-					n.RouteReflector.Config.RouteReflectorClusterId = c09fClusterID
+					if !wd.DefaultCID {
+						n.RouteReflector.Config.RouteReflectorClusterId = c09fClusterID
+					}
 				case c09fKRS:
 					n.RouteServer.Config.RouteServerClient = true
 				case c09fKEBGPReplace:
@@ -367,7 +392,7 @@ func c09fAttrs(c c09fCase) []bgp.PathAttributeInterface {
 		a, _ := bgp.NewPathAttributeClusterList([]netip.Addr{c09fOtherCID})
 		attrs = append(attrs, a)
 	case 2:
-		a, _ := bgp.NewPathAttributeClusterList([]netip.Addr{c09fOtherCID, c09fClusterID})
+		a, _ := bgp.NewPathAttributeClusterList([]netip.Addr{c09fOtherCID, c.world().cid()})
 		attrs = append(attrs, a)
 	}
 	return attrs
@@ -839,7 +864,7 @@ func c09fJudge(r *vr.Report, c c09fCase, o c09fObs) {
 				} else if c.Orig == 2 && oid.(*bgp.PathAttributeOriginatorId).Value != c09fOtherRID {
 					viol("wire:originator-id-replaced:"+tk, "an existing ORIGINATOR_ID is kept — %s was sent %v", tp.Name, oid)
 				}
-				if cl == nil || len(cl.(*bgp.PathAttributeClusterList).Value) == 0 || cl.(*bgp.PathAttributeClusterList).Value[0] != c09fClusterID {
+				if cl == nil || len(cl.(*bgp.PathAttributeClusterList).Value) == 0 || cl.(*bgp.PathAttributeClusterList).Value[0] != wd.cid() {
 					viol("wire:cluster-id-not-prepended:"+tk, "to a route-reflector client the local cluster-id is prepended — %s was sent %v", tp.Name, cl)
 				}
 				r.Outcome(wn + "wire:rr-client:attrs-checked")
